@@ -23,7 +23,7 @@ ORACLES = ('store', 'journal', 'restore_all')
 
 
 def gen_case(seed, tier):
-    return history.gen_history(seed, 'c02', max_users=4 if tier == 'thorough' else 3, nops=(3, 24) if tier == 'thorough' else (3, 12), destructive=True, overlap=True, reads=True)
+    return history.gen_history(seed, 'c02', max_users=4 if tier == 'thorough' else 3, nops=(3, 24) if tier == 'thorough' else (3, 12), destructive=True, overlap=True, reads=True, many=0.08, services=True)
 
 
 def run_case(case):
